@@ -1,7 +1,8 @@
 (* C13 (Bloom part) - every image variant a Java / C++ writer can emit is read back to the state it
    encodes.  [enc_spec v a] (Spec/BloomLayout.v) is the specification's encoder: short form (empty set
    only), long form with the exact count, long form with the "dirty" marker -1 in the count field;
-   the two unused fields carry arbitrary values.  Statements only. *)
+   the two unused fields and the seven undefined bits of the flags byte (all but bit 2) carry arbitrary
+   values.  Statements only. *)
 From DS Require Import Base.Prelude Model.Bloom Spec.BloomLayout Proofs.BloomProofs Proofs.BloomCodec.
 Open Scope N_scope.
 
@@ -20,10 +21,11 @@ Theorem c13_bloom_accepted_is_wf :
   bf_alloc_bytes bs = 8 * N.of_nat (length (bf_words f)).
 Proof. exact deserialize_ok_wf. Qed.
 
-(* non-vacuity: the dirty variant of a 1-word state with junk in the unused fields: the count is recomputed *)
+(* non-vacuity: the dirty variant of a 1-word state with junk in the unused fields and every undefined flag bit set
+   (flags byte 0xfb): the count is recomputed *)
 Example c13_bloom_example :
   let a := mkAbs 5 9001 1 [255] 8 in
-  let v := mkVar FLongDirty 4660 3735928559 in
+  let v := mkVar FLongDirty 4660 3735928559 255 in
   abs_wf a /\ variant_ok v a /\
   bf_deserialize (enc_spec v a) = Ok (mkBloom 9001 5 8 [255]).
 Proof.
